@@ -159,6 +159,18 @@ def gen_c09(ctx, quick):
         n = ctx.rng.randint(2, 4)
         es, revs = ctllib.bootstrap_history(ctx.rng, rf, n)
         cases.append(dict(rf=rf, world=world(n, revs=dict(enumerate(revs))), events=es))
+    # the elected leader becomes unreachable after it was signalled and another registered replica registers
+    # again (sync's registration loop): the leader's registration is dropped, the majority is gone, nobody
+    # may be signalled until enough replicas have registered again
+    for rf in (3, 5):
+        q = rf // 2 + 1
+        revs = {a: (9 if a == 0 else 7 - (a % 2)) for a in range(rf)}
+        regs = [ev("register", a=a, uuid=a + 1, rev=revs[a]) for a in range(q)]
+        for who in range(1, q):
+            for later in ([], [ev("register", a=q % rf, uuid=(q % rf) + 1, rev=revs[q % rf])], [ev("register", a=0, uuid=1, rev=revs[0])]):
+                es = regs + [ev("register", a=who, uuid=who + 1, rev=revs[who], fs=[dict(a=0, k="alive")])] + later
+                es += [ev("start", addrs=[a]) for a in range(q)]
+                cases.append(dict(rf=rf, world=world(rf, revs=revs), events=es))
     # all orders of three registrants with all rev assignments from {1,2,3} for rf=3 (quick: a third of them)
     for revs in itertools.product((1, 2, 3), repeat=3):
         for order in itertools.permutations(range(3)):
